@@ -36,6 +36,10 @@ STATES = ['fresh', 'open', 'open_resp', 'hc_remote', 'hc_local', 'closed_es', 'c
 MUST_SURFACE = ('data-overruns-stream-window', 'padded-data-overruns-stream-window', 'data-overruns-connection-window',
                 'window-update-conn-overflow', 'settings-iws-2^31', 'settings-iws-2^32-1',
                 'settings-iws-delta-overflows-stream-window', 'settings-iws-delta-overflows-reserved-stream-window')
+# ... and classes that are connection errors whatever else is going on: no reaction at all, or a reaction on the stream only, is a
+# violation as well
+MUST_RAISE = ('data-on-idle-stream-below-other-sides-ids', 'rst-on-idle-stream-below-other-sides-ids',
+              'window-update-on-idle-stream-below-other-sides-ids')
 
 
 class GoawayMonitor(object):
@@ -316,6 +320,31 @@ def cat():
     add('data-on-idle-stream', [PE], lambda h, sid, st: wire.build_data(h.peer_next + 10 if not h.e_client else h.e_next + 10, b'x'))
     add('new-stream-wrong-parity', [PE], lambda h, sid, st: wire.build_headers(h.peer_next + 1, hb(REQ)), roles=(False,))
 
+    def idle_below_the_other_side(build):
+        # an id that its owner never used although the other side's ids are already far beyond it: still idle (RFC 7540 5.1.1
+        # counts each side's identifiers separately), so DATA / RST_STREAM / WINDOW_UPDATE on it are connection errors
+        def fn(h, sid, st):
+            for _ in range(3):
+                if h.e_client:
+                    if not h.e_request(end_stream=True)[1].ok:
+                        return None
+                else:
+                    if not h.peer_request(end_stream=True)[1].ok:
+                        return None
+            if h.e_client:
+                # E (a client) has used odd ids up to e_next-2; the peer has promised nothing above its own peer_next-2
+                idle = h.peer_next + 2 if h.peer_next + 2 < h.e_next else None
+            else:
+                idle = h.e_next + 2 if h.e_next + 2 < h.peer_next else None
+            if idle is None:
+                return None
+            return build(idle)
+        return fn
+    add('data-on-idle-stream-below-other-sides-ids', [PE], idle_below_the_other_side(lambda i: wire.build_data(i, b'x')), group='data-on-idle-stream')
+    add('rst-on-idle-stream-below-other-sides-ids', [PE], idle_below_the_other_side(lambda i: wire.build_rst(i, 8)), group='rst-on-idle-stream')
+    add('window-update-on-idle-stream-below-other-sides-ids', [PE], idle_below_the_other_side(lambda i: wire.build_window_update(i, 10)),
+        group='window-update-on-idle-stream')
+
     def implicit_closed(h, sid, st):
         a = h.peer_next
         assert h.send(wire.build_headers(a + 2, hb(REQ))).ok
@@ -540,6 +569,11 @@ def run_catalogue(item, rng, rep):
     if res.exc is None:
         rep.count('catalogue_not_raised')
         rep.observe('not_raised', '%s/%s/%s' % (kind, state, role))
+        if kind in MUST_RAISE:
+            rep.count('idle_stream_frames_checked_for_missing_connection_error')
+            rep.violation('C18:violating-input-accepted:%s' % group,
+                          'violation class %s (state %s, %s) is a connection error; receive_data raised nothing: events %s, frames %s' %
+                          (kind, state, role, [type(e).__name__ for e in res.events], [f.brief() for f in res.frames]), wit(item, h))
         if kind in MUST_SURFACE:
             # window violations may be answered on the stream instead (RFC 7540 6.9.1), but never taken in silence: the category
             # has to surface somewhere
